@@ -17,7 +17,7 @@ type SynCfg struct {
 }
 
 var identPool = []string{"a", "b", "c", "x", "y", "n", "foo", "i", "N", "AB", "nil", "m", "arr"}
-var intForms = []string{"0", "1", "2", "7", "42", "0x1F", "0xff", "0b101", "1_000", "9223372036854775807", "007", "99999999999999999999"}
+var intForms = []string{"0", "1", "2", "7", "42", "-9223372036854775808", "0x1F", "0xff", "0b101", "1_000", "9223372036854775807", "007", "99999999999999999999"}
 var floatForms = []string{"1.5", ".5", "0.25", "1e3", "1.5e-3", "2E+2", "3.14159", "100.", "1_0.5", "1e300"}
 var strForms = []string{"", "a", "abc", "hello world", "a\"b", "back\\slash", "tab\there", "nl\nx", "\x00", "\xff\xfe", "é😀", "`", "//", "/*", "${x}", " "}
 
